@@ -390,6 +390,14 @@ EXTSETS = [
     # the compiler treats the set occurrence as nullable while resolving and answers {b, c} (KNOWN_FINDINGS.txt)
     EG("s05", "abcd", ["Sx"], [("Sx", [(S(N("Lx"), T("d")), "R")]), ("Lx", [(S(N("Ix")), None), (S(N("Lx"), SX(("precede", "Ix")), N("Ix")), None)]), ("Ix", [(seq("a", "b"), None), (seq("c"), None)])],
        uses_sets=True, known="set-occurrence-treated-as-nullable"),
+    # follow through nullable nonterminals up to the end of a rule: what follows the rule follows the symbol
+    EG("s06", "abcd", ["Sx"], [("Sx", [(S(N("Fx"), T("d"), N("Qx")), "R")]), ("Fx", [(S(T("a"), T("b"), N("Tl"), N("Tm")), None)]), ("Tl", [(seq("c"), None), (("seq", []), None)]), ("Tm", [(seq("a"), None), (("seq", []), None)]),
+                                 ("Qx", [(S(SX(("follow", "b"))), None)])],
+       uses_sets=True, named_sets=[("follB", ("follow", "b")), ("follT", ("follow", "Tl")), ("lastF", ("last", "Fx")), ("precD", ("precede", "d"))]),
+    # a nonterminal whose only empty alternative carries a semantic action is nullable
+    EG("s07", "abcd", ["Sx"], [("Sx", [(S(T("a"), N("Fx"), T("d"), N("Qx")), "R")]), ("Fx", [(S(N("Op"), T("b"), N("Op")), None)]), ("Op", [(seq("c"), None), (S(("act", 5, [])), None)]),
+                                 ("Qx", [(S(SX(("first", "Fx"))), None), (S(T("a"), SX(("last", "Fx"))), None)])],
+       uses_sets=True, named_sets=[("firstF", ("first", "Fx")), ("lastF", ("last", "Fx")), ("follO", ("follow", "Op")), ("precO", ("precede", "Op"))]),
     EG("s04", "abcd", ["Sx"], [("Sx", [(S(O(T("a")), N("Nx"), T("c"), N("Tx")), "R")]), ("Nx", [(("seq", []), None), (seq("b", "Nx"), None)]),
                                 ("Tx", [(S(SX(("follow", "Nx")), T("a")), None), (S(SX(("and", [("not", ("first", "Sx")), ("not", ("any", "eoi")), ("not", ("any", "invalid_token"))]))), None)])],
        uses_sets=True, named_sets=[("follN", ("follow", "Nx")), ("firstN", ("first", "Nx")), ("firstS", ("first", "Sx")), ("comp", ("not", ("or", [("ref", "follN"), ("ref", "firstN")])))]),
